@@ -18,7 +18,8 @@ RULE = ('Generated: 2-60 rows with distinct wavelengths (0.1-100 um, spacing by 
         'that are injective functions of the wavelength plus drawn noise (so alignment is observable), optional '
         'fourth column of widths drawn independently per row, a drawn row permutation, and a source: array, '
         'text file, TauREx HDF5 through TaurexSpectrum and through taurex_hdf5_to_observation.  Non-trivial = '
-        'permutation is not the identity and errors/widths are non-uniform; distinct by case hash.')
+        'permutation is not the identity and errors/widths are non-uniform; distinct by case hash.'
+        ' A fifth of the four-column array/text cases make two rows share a wavelength; the binner created from the observation is re-used on a second native grid with equal count and end points.')
 ASSUMPTIONS = [
     'views of the permuted and the sorted input are compared bit for bit (rows are only moved); HDF5 sources convert widths twice (wavenumber -> wavelength -> wavenumber), compared with rtol 1e-12',
     'four-column bin edges are centre +/- width/2 in wavelength, reported as 10000/edge in ascending wavenumber; three-column edges are wavelength mid-points (ends mirrored)',
